@@ -7,10 +7,13 @@ THEOREMS = ['ParsecVerif.C20.owner_in_range', 'ParsecVerif.C20.local_iff_owner',
             'ParsecVerif.C20.slot_injective', 'ParsecVerif.C20.slot_surjective', 'ParsecVerif.C20.memory_disjoint',
             'ParsecVerif.C20.key_roundtrip', 'ParsecVerif.C20.key_injective', 'ParsecVerif.C20.vp_grid', 'ParsecVerif.C20.vpid_in_range',
             'ParsecVerif.C20.datakey_partial', 'ParsecVerif.C20.kcyclic_datakey_collision',
+            'ParsecVerif.C20.kview_in_window', 'ParsecVerif.C20.kview_injective', 'ParsecVerif.C20.kview_slot_injective',
+            'ParsecVerif.C20.sym_owner_in_range', 'ParsecVerif.C20.sym_local_iff_owner', 'ParsecVerif.C20.sym_lower_slot_in_range',
+            'ParsecVerif.C20.sym_lower_slot_injective', 'ParsecVerif.C20.sym_upper_slot_in_range', 'ParsecVerif.C20.sym_upper_slot_injective',
             'ParsecVerif.C20.band_owner_in_range', 'ParsecVerif.C20.band_slot_injective', 'ParsecVerif.C20.band_slot_in_range',
             'ParsecVerif.C20.tab_slot_in_range', 'ParsecVerif.C20.tab_slot_injective', 'ParsecVerif.C20.tab_slot_surjective',
-            'ParsecVerif.C20.vec_owner_in_range', 'ParsecVerif.C20.vec_diag_slot_injective', 'ParsecVerif.C20.vec_diag_init_hangs',
-            'ParsecVerif.C20.vec_row_slot_collision']
+            'ParsecVerif.C20.vec_owner_in_range', 'ParsecVerif.C20.vec_diag_slot_injective', 'ParsecVerif.C20.vec_init_terminates_iff',
+            'ParsecVerif.C20.vec_diag_init_hangs', 'ParsecVerif.C20.vec_row_slot_collision']
 IMPL = ('parsec/data_dist/matrix/{two_dim_rectangle_cyclic,grid_2Dcyclic,sym_two_dim_rectangle_cyclic,two_dim_rectangle_cyclic_band,'
         'two_dim_tabular,vector_two_dim_cyclic,matrix}.c')
 ENGINE = 'lean-seq'
@@ -18,15 +21,17 @@ LEVEL = 'proof'
 LEVEL_TEXT = ('Lean 4 theorems, for ALL tile/matrix sizes, submatrix offsets, process grids P x Q, k-cyclicity factors kp,kq and grid offsets ip,jq, about a model that '
               'mirrors parsec_matrix_block_cyclic_init / twoDBC_* / twoDBC_kcyclic_* / parsec_grid_2Dcyclic_init branch by branch: the owner is a valid rank; a tile passes a '
               'rank\'s locality assertions iff that rank is the owner; the data_map position of an owned tile is below nb_local_tiles, injective on the rank\'s tiles and onto '
-              '[0, nb_local_tiles) (so tile-storage memory blocks never overlap); data_key / key2coords round-trip; vp_p*vp_q = nb_vp and vpid < nb_vp. The same slot theorems are '
-              'proved for the band composition (given the two inner 2D collections) and the tabular distribution (all tables); for the vector distribution owner-in-range and '
-              'diag-slot-injectivity are theorems, and three defects of the real code are proved on the model with witnesses (k-cyclic data_of key collision, vector DIAG init '
-              'non-termination, vector ROW/COL slot collision) and reproduced on the real code. The k-cyclic VIEW and the SYMMETRIC distribution are modelled and differentially '
-              'tested only (no theorems). Tie on every run: the real init functions and accessors are executed for every rank\'s view in one process (exhaustive small box + '
-              'random parameters, both storages, nb_vp in {1,6} quick / {1,2,4,6,7,12} thorough) and the full tables are compared with the compiled Lean model; an independent '
-              'Python oracle of the property statement is evaluated on the implementation\'s tables.')
+              '[0, nb_local_tiles) (so tile-storage memory blocks never overlap); data_key / key2coords round-trip; vp_p*vp_q = nb_vp and vpid < nb_vp. '
+              'k-cyclic VIEW: kview_compute (cycle walking) terminates inside the window and is injective for all view factors, hence distinct view tiles of a rank use distinct slots. '
+              'SYMMETRIC (square tile grids, both triangles): owner in range, local iff owner, coord2pos below nb_local_tiles (for UPPER by a double-counting argument: the init counts by rows, coord2pos by columns) and injective. '
+              'BAND (composition of two 2D collections) and TABULAR (all tables): slot in range / injective (tabular also onto). VECTOR: owner in range, DIAG slot injective. '
+              'Three defects of the real code are proved on the model with witnesses and reproduced on the real code (k-cyclic data_of key collision, vector DIAG init '
+              'non-termination, vector ROW/COL slot collision). Tie on every run: the real init functions and accessors are executed for every rank\'s view in one process (exhaustive small box + '
+              'random parameters over all six variants, both storages, nb_vp in {1,6} quick / {1,2,4,6,7,12} thorough) and the full ownership/slot/key/offset/vpid tables are compared with the compiled Lean model; '
+              'an independent Python oracle of the property statement is evaluated on the implementation\'s tables.')
 LEVEL_NOTE = ('Theorems are about the Lean model (Nat arithmetic; all C operands are non-negative ints far below 2^31 in the tested box, overflow is not modelled). '
-              'kview and sym: differential + oracle only. LAPACK-storage offsets: differential + oracle only (slot theorems hold for both storages). '
+              'Not theorems, only differential + oracle: surjectivity (no slot wasted) for sym/kview/band, '
+              'LAPACK-storage element offsets (slot theorems hold for both storages), the vector ROW/COL variants (they are defective, see findings). '
               'vp grid: ceilf(sqrtf(n)) is modelled as the integer ceiling square root. Trusted: Lean kernel, propext/Classical.choice/Quot.sound, the harness '
               '(it enlarges data_map after init so that an out-of-range position is observed instead of corrupting the heap; it adds room for device_copies[0] as parsec_data_init does), '
               'differential testing as the model-code tie.')
@@ -593,8 +598,10 @@ def run(ctx, res, ops_override=None):
     dist['violation_counts'] = {k: v['count'] for k, v in seen_keys.items()}
     res.extra['input_distribution'] = dist
     res.extra['exhaustive'] = False
-    res.extra['variants'] = {'theorems': ['2D block-cyclic (plain and k-cyclic, grid offsets)', 'band (composition)', 'tabular', 'vector (owner range, diag slots; defects proved)'],
-                             'differential_only': ['k-cyclic view', 'symmetric', 'LAPACK-storage offsets']}
+    res.extra['variants'] = {'theorems': ['2D block-cyclic (plain and k-cyclic, grid offsets): all five statements + exact slot count', 'k-cyclic view: in window, injective',
+                                          'symmetric (both triangles): owner, local-iff-owner, slots in range + injective', 'band (composition)', 'tabular',
+                                          'vector (owner range, diag slots; defects proved)'],
+                             'differential_only': ['surjectivity for kview/sym/band', 'LAPACK-storage offsets', 'vector ROW/COL (defective)']}
 
 
 def replay(ctx, res, data):
